@@ -53,7 +53,7 @@ def families(s: int):
         m = _model([oh.make_node("GroupNormalization", ["x", "s", "b"], ["y"], num_groups=2, epsilon=1e-5)], ins, [("y", F, [1, 4, 2])], inits, s)
         out.append((f"GroupNormalization params={'inputs' if sym_params else 'initializers'}", m, [(n, dt, tuple(sh)) for n, dt, sh in ins]))
     # GroupNormalization with non-default attributes (they must survive the adapter)
-    for eps in (0.5, 1e-3):
+    for eps in (0.5, 1e-3, 0.0):
         m = _model([oh.make_node("GroupNormalization", ["x", "s", "b"], ["y"], num_groups=2, epsilon=eps)], [("x", F, [1, 4, 2])], [("y", F, [1, 4, 2])],
                    [nh.from_array(sc, "s"), nh.from_array(bi, "b")], s)
         out.append((f"GroupNormalization epsilon={eps}", m, [("x", F, (1, 4, 2))]))
@@ -208,6 +208,25 @@ def _worker(payload):
         elif got and got[0].SerializeToString(deterministic=True) != init.SerializeToString(deterministic=True) and got[0].raw_data != init.raw_data \
                 and nh.to_array(got[0]).tobytes() != nh.to_array(init).tobytes():
             rec["problems"].append(f"initializer {init.name} changed its value")
+    # the normalisation attributes must survive the adapter with their values (an epsilon of exactly 0.0 is a value too); the
+    # real-valued semantics sees them only inside an uninterpreted rsqrt, whose counterexamples rarely replay
+    def _gn_attrs(m_):
+        out_ = []
+
+        def walk_(nodes_):
+            for n_ in nodes_:
+                if n_.op_type == "GroupNormalization" and n_.domain in ("", "ai.onnx"):
+                    a_ = {a.name: oh.get_attribute_value(a) for a in n_.attribute if not a.ref_attr_name}
+                    out_.append((int(a_.get("num_groups", -1)), float(a_.get("epsilon", 1e-5)), int(a_.get("stash_type", 1))))
+                for a in n_.attribute:
+                    if a.type == onnx.AttributeProto.GRAPH:
+                        walk_(a.g.node)
+        walk_(m_.graph.node)
+        for f_ in m_.functions:      # a function body counts once (the hosts call each function once; inlining moves it to the caller)
+            walk_(f_.node)
+        return sorted(out_)
+    if _gn_attrs(mp) != _gn_attrs(new):
+        rec["problems"].append(f"GroupNormalization attributes (num_groups, epsilon, stash_type) changed: {_gn_attrs(mp)} -> {_gn_attrs(new)}")
     for p in W.check_model(new):
         rec["problems"].append("malformed: " + p)
     try:
